@@ -135,7 +135,9 @@ def cmd_detect(name, props):
     det = m.get('detection', {})
     try:
         for p in props:
-            rc, out = sh('./check %s --tier %s' % (p, tier), cwd=VERIF, timeout=7200)
+            # evidence of a run on the patched tree goes to a scratch directory: evidence/ is for the tree as it is
+            rc, out = sh('./check %s --tier %s' % (p, tier), cwd=VERIF, timeout=7200,
+                         env={'VERIF_EVIDENCE_DIR': os.path.join(VERIF, 'build', 'seeded_evidence')})
             lines = [l for l in out.split('\n') if l.startswith(('VIOLATION', 'UNDECIDED', 'OK', 'KNOWN-FINDING', '  obligation'))]
             key = p if tier == 'quick' else p + ' (thorough)'
             det[key] = {'rc': rc, 'verdict': {0: 'MISSED (exit 0)', 1: 'DETECTED', 2: 'UNDECIDED'}.get(rc, str(rc)), 'lines': lines[:12]}
